@@ -189,6 +189,7 @@ def write_evidence(prop, tier, seed, agg, wall, corpus_n, corpus_bad,
             'faults_fired': agg.faults,
             'probes_hit': agg.probes,
             'outcomes': agg.outcomes,
+            'inconclusive_seeds': agg.odd_seeds[:10],
             'features': agg.features,
             'regression_corpus_replayed': corpus_n,
             'regression_corpus_failed': corpus_bad,
